@@ -48,7 +48,11 @@ def strategy(tier):
     find = st.one_of(st.none(), st.tuples(st.just("id"), st.integers(0, 6), st.sampled_from(["str", "bytes"])).map(list), st.just(["ip"]))
     sync = st.builds(lambda seq, f: dict({"k": "sync", "seq": seq}, **({"find": f} if f else {})),
                      st.lists(st.tuples(st.integers(0, 5), st.sampled_from(NAMES)).map(list), min_size=1, max_size=10), find)
-    return st.one_of(asyncc, asyncc, asyncc, sync)
+    srun = st.builds(lambda spas, f, t: {"k": "syncrun", "spas": spas, "filter": f, "target": t},
+                     st.lists(st.tuples(st.integers(0, 150), st.sampled_from(NAMES), st.sampled_from([0.0, 0.2, 1.0, 3.7, 4.05, 6.0, 9.5, 12.0])).map(list),
+                              max_size=4, unique_by=lambda s_: s_[0] % 200),
+                     st.sampled_from(["none", "id", "ip"]), st.integers(0, 3))
+    return st.integers(0, 9).flatmap(lambda i: sync if i == 0 else (srun if i == 1 else asyncc))
 
 
 def _ident(n):
@@ -306,8 +310,106 @@ def _run_sync(res, case):
     res.label("sync-locator")
 
 
+def _run_syncrun(res, case):
+    """the blocking locator's own discovery loop (start_discovery(should_wait=True)) in virtual time: the socket engine is stepped from
+    inside its wait(), the hello retry "thread" is played by the harness once per second, generated spas answer with generated latencies"""
+    import geckolib.locator as locmod
+    import geckolib.driver.udp_socket as us
+    from geckolib import GeckoConfig
+    from .. import stepped
+
+    spas = [(int(n), str(name), float(lat)) for n, name, lat in case["spas"]]
+    flt = case.get("filter", "none")
+    if flt not in ("none", "id", "ip"):
+        raise InvalidCase(case)
+    target = spas[int(case.get("target", 0)) % len(spas)] if spas else None
+    kw, want = {}, None
+    if flt == "id":
+        want = _ident(target[0]) if target else b"SPAzz:zz"
+        kw["spa_to_find"] = want
+    elif flt == "ip":
+        kw["static_ip"] = f"10.0.0.{50 + (target[0] % 200)}" if target else "10.0.0.99"
+    eng = stepped.Engine()
+    first = {}
+    state = {"next_hello": None}
+    with eng.patched():
+        def peer(data, client_addr):
+            # every hello is answered by every spa it reaches (a unicast only by the addressed one), each with its own latency
+            if b"<HELLO>" in data:
+                dest = eng.sent[-1][2] if eng.sent else None
+                for n, name, lat in spas:
+                    ip = f"10.0.0.{50 + (n % 200)}"
+                    if dest is not None and dest[0] not in ("<broadcast>", "255.255.255.255", ip):
+                        continue
+                    at = eng.vt.t + eng.LATENCY + lat
+                    first.setdefault(_ident(n), at)
+                    eng.deliver(R.hello_reply(_ident(n), name.encode("latin-1")), (ip, 10022), at=at)
+            return []
+        eng.peer = peer
+        loc = locmod.GeckoLocator("uuid", **kw)
+        real_cls = us.GeckoUdpSocket
+
+        def factory():
+            sock = real_cls()
+            sock.open = lambda: None
+            sock.enable_broadcast = lambda: None
+            eng.attach(sock)
+
+            def wait(timeout):
+                t_end = eng.vt.t + float(timeout)
+                while eng.vt.t < t_end - 1e-9:
+                    if state["next_hello"] is None or eng.vt.t >= state["next_hello"]:
+                        state["next_hello"] = eng.vt.t + 1.0
+                        if loc.age < GeckoConfig.DISCOVERY_TIMEOUT_IN_SECONDS:      # what one turn of the retry thread does
+                            sock.queue_send(locmod.GeckoHelloProtocolHandler.broadcast(),
+                                            locmod.GeckoHelloProtocolHandler.broadcast_address(static_ip=loc._static_ip))
+                    stepped.run_until(eng, lambda: True, max_iterations=1)
+            sock.wait = wait
+            sock.close = lambda: setattr(sock, "_vp_closed", True)
+            return sock
+        saved = locmod.GeckoUdpSocket
+        locmod.GeckoUdpSocket = factory
+        try:
+            t0 = eng.vt.t
+            loc.start_discovery(True)
+            dur = eng.vt.t - t0
+        finally:
+            locmod.GeckoUdpSocket = saved
+    init_to, disc_to = 4.0, 10.0
+    tol = 0.1 + 2 * eng.timeout_step + 0.02      # one wait() of the loop + the engine iteration that takes the reply
+    listed = [d.identifier for d in loc.spas]
+    if len(set(listed)) != len(listed):
+        res.fail("C15|blocking-run|duplicate", f"blocking discovery lists {listed}")
+    answered = {sid: t_ - t0 for sid, t_ in first.items()}
+    for sid, t_ in answered.items():
+        if t_ < dur - tol and sid not in listed:
+            res.fail("C15|blocking-run|responder-not-listed", f"{sid!r} answered at {t_:.2f}s, discovery ran {dur:.2f}s, not listed")
+    if dur > disc_to + tol:
+        res.fail("C15|blocking-run|late-return|timeout", f"blocking discovery took {dur:.2f}s")
+    eligible = {sid: t_ for sid, t_ in answered.items() if (want is None or sid == want)}
+    if flt != "none" and eligible:
+        tr_ = min(eligible.values())
+        if tr_ < disc_to and dur > tr_ + tol:
+            res.fail("C15|blocking-run|late-return|requested-spa-answered", f"the requested spa answered at {tr_:.2f}s, the blocking discovery returned at {dur:.2f}s")
+    if flt == "none" and eligible:
+        tr_ = min(eligible.values())
+        if tr_ < disc_to and dur > max(init_to, tr_) + tol:
+            res.fail("C15|blocking-run|late-return|unfiltered", f"first reply at {tr_:.2f}s, blocking discovery returned at {dur:.2f}s")
+        if dur < init_to - 1e-6:
+            res.fail("C15|blocking-run|early-return|unfiltered", f"blocking discovery returned after {dur:.2f}s, before the initial wait")
+    if not eligible and dur < disc_to - 1e-6:
+        res.fail("C15|blocking-run|early-return|nothing-found", f"nothing eligible answered but the blocking discovery returned after {dur:.2f}s")
+    if not getattr(loc._socket, "_vp_closed", False):
+        res.fail("C15|blocking-run|socket-not-closed", "the blocking discovery returned without closing its socket")
+    res.nontrivial = len(spas) >= 2
+    res.label("blocking-discovery-loop", "blocking-filter-" + flt)
+
+
 def run_case(case) -> Result:
     res = Result()
+    if case.get("k") == "syncrun":
+        _run_syncrun(res, case)
+        return res
     if case.get("k") == "async":
         _run_async(res, case)
     elif case.get("k") == "sync":
